@@ -230,7 +230,22 @@ type EmbVal struct {
 	Y []int64 `nbt:"y,omitempty"`
 }
 
+type NamedF32 float32
+type NamedF64 float64
+type NamedBool bool
+type NamedU16 uint16
+type NamedBytes []byte
+type NamedInts []int32
+type NamedKeyMap map[NamedStr]int32
+
 type Zoo struct {
+	NF32 NamedF32
+	NF64 NamedF64
+	NB   NamedBool
+	NU16 NamedU16
+	NBy  NamedBytes
+	NIs  NamedInts
+	NKM  NamedKeyMap
 	NS   NamedStr
 	NSM  NamedStrM
 	NI   NamedInt
@@ -248,6 +263,12 @@ func genZoo(r *vm.Rand) Zoo {
 	s := func() string { return []string{"", "a", "hello world", "123", "§x", "q\"q"}[r.Intn(6)] }
 	in := func() Inner { return Inner{I1: int16(r.Int64B()), I2: s()} }
 	z := Zoo{NS: NamedStr(s()), NSM: NamedStrM(s()), NI: NamedInt(r.Int64B()), TT: TextT{r.Intn(100) - 50, r.Intn(100)}, EP: EmbPtr{X: int32(r.Int64B())}, EV: EmbVal{Inner: in()}}
+	z.NF32, z.NF64, z.NB, z.NU16 = NamedF32(r.Intn(100))/4, NamedF64(r.Intn(1000))/8, NamedBool(r.Bool()), NamedU16(r.Int64B())
+	if r.Bool() {
+		z.NBy = NamedBytes(r.Bytes(r.Intn(5)))
+		z.NIs = NamedInts{int32(r.Int64B()), 7}
+		z.NKM = NamedKeyMap{NamedStr(s()): 5, "zz": int32(r.Int64B())}
+	}
 	for i := r.Intn(3); i > 0; i-- {
 		z.TTs = append(z.TTs, TextT{r.Intn(9), -r.Intn(9)})
 	}
@@ -559,6 +580,9 @@ var forcedTypes = func() []reflect.Type {
 		reflect.TypeOf(float32(0)), reflect.TypeOf(float64(0)), reflect.TypeOf(""),
 	}
 	out := append([]reflect.Type{}, sc...)
+	for l := 1; l <= 7; l++ {
+		out = append(out, gotypes.DeepEmbedded(l, false), gotypes.DeepEmbedded(l, true))
+	}
 	for _, t := range sc {
 		out = append(out, reflect.SliceOf(t), reflect.ArrayOf(3, t), reflect.ArrayOf(0, t), reflect.SliceOf(reflect.SliceOf(t)), reflect.MapOf(reflect.TypeOf(""), t),
 			reflect.StructOf([]reflect.StructField{{Name: "S", Type: reflect.SliceOf(t), Tag: `nbt:"s"`}, {Name: "A", Type: reflect.ArrayOf(2, t), Tag: `nbt:"a"`}, {Name: "P", Type: reflect.PointerTo(t), Tag: `nbt:"p"`}, {Name: "V", Type: t}}))
